@@ -18,11 +18,15 @@ CASE_T_L = "C13.CorrL.case"
 HEADER_N = ("From Coq Require Import ZArith List.\n"
             "From TV Require Import Common.Harness C13.Model C13.Law C13.Corr C13.CorrN.")
 CASE_T_N = "C13.CorrN.case"
+HEADER_C = ("From Coq Require Import ZArith List.\n"
+            "From TV Require Import Common.Harness C13.Model C13.Law C13.Corr C13.CorrC.")
+CASE_T_C = "C13.CorrC.case"
 PROPS = ["C13/Props.v", "C13/PropsClassOps.v", "C13/PropsClassOps2.v", "C13/PropsWave4.v"]
 KIND = {0: "Python", 1: "Any", 2: "Disallow", 3: "ReadOnly", 4: "Constant", 5: "Event", 6: "Typed",
         7: "dunder", 8: "no-rule", 9: "add-remove"}
 WHAT = {1: "outcome-class", 2: "value-read", 3: "stored-afterwards (for remove_trait: a value of the removed trait or of its shadow stays behind)",
         4: "on_trait_change(handler, name) fails", 5: "on_trait_change(handler, name, remove=True) fails",
+        6: "copy refused / accepted against the copy's own rules", 7: "the copy holds a value its own rule does not store",
         9: "outcome not that of the trait found along the MRO (the code merges direct bases depth-first)"}
 NROOTS = 3
 
@@ -32,6 +36,9 @@ DUNDERS = ["__a__", "__ab__", "__b__"]
 ALL_NAMES = NAMES + DUNDERS
 EXPLICIT = [n for n in NAMES if not n.endswith("_") and len(n) <= 3]
 PREFIXES = ["", "_", "a", "b", "ab", "_a", "a_", "__", "aa", "abb", "_ab", "a_b", "ba"]
+# wildcard stems that are Python keywords (C13-w1: `is_ = Bool`, `in_ = Int`, `from_ = Int` are wildcards like any other)
+KW_PREFIXES = ["is", "in", "as", "or", "if", "from"]
+KW_NAMES = ["is_ready", "in_use", "as_x", "or_b", "if_", "from_a", "isa", "inb", "is", "fromage"]
 POLS = [["Python"], ["Any", 5], ["Any", 200], ["Disallow"], ["ReadOnly"], ["Constant", 3], ["Constant", 104],
         ["Event"], ["Typed", "VInt", 7], ["Typed", "VStr", 102], ["Typed", "VCInt", 8], ["ReadOnly"], ["Event"],
         ["ReadOnly", 9], ["Event", "VInt"]]
@@ -163,6 +170,21 @@ def to_term_n(case, obs):
     return (classes, Nat(case["cls"]), h)
 
 
+def to_term_c(case, obs):
+    """Cases with copies of the object (C13/CorrC.v): operations on a (no flag) and b (flag "B"), ["Clone", how]."""
+    classes = [C("mkClass", [(name_term(n), pol_term(p)) for n, p in cd["decls"]], [Nat(b) for b in cd["bases"]])
+               for cd in case["classes"]]
+    h = []
+    for op, ob in zip(case["ops"], obs):
+        if op[0] == "Clone":
+            h.append(C("CCl", out_term(ob["out"]), [(name_term(m), v) for m, v in ob["state"]],
+                       [(name_term(m), opt(v)) for m, v in ob["copy"]]))
+        else:
+            h.append(C("CEv", op[-1] == "B", op_term(op),
+                       C("mkObs", out_term(ob["out"]), opt(ob["stored"]), opt(ob["shadow"]), opt(ob["base"]))))
+    return (classes, Nat(case["cls"]), h)
+
+
 def to_term_t(case, obs):
     """Cases with add_class_trait (C13/CorrT.v)."""
     classes = [C("mkClass", [(name_term(n), pol_term(p)) for n, p in cd["decls"]], [Nat(b) for b in cd["bases"]])
@@ -228,6 +250,12 @@ def key_fn(case, obs, step, clause):
                 # explicit name added to a base class: the subclass that has the name cached keeps the cached trait
                 return "runtime-class-trait-does-not-reach-cached-name"
     if clause == 99:
+        # the known finding is about WHICH declaration is found (MRO vs base order).  A name the class re-defaults in
+        # its own body (C13-v2) is declared by the class itself, both readings find that declaration, so a failure
+        # there can never be relabelled 99; should it ever be, it is reported under its own key, not absorbed.
+        k = (case.get("precls") if is_early(op) else case["cls"]) - NROOTS
+        if 0 <= k < len(case["classes"]) and any(n == op[1] and unrt(p)[0] == "Default" for n, p in case["classes"][k]["decls"]):
+            return "class-body-default/relabelled-99/%s" % op[0]
         return "trait-inheritance-not-by-mro"
     if op[0] == "Get" and clause in (21, 42, 51) and obs[step]["out"][0] == "Val":
         pol = live_instance_trait(case, step, op[1])
@@ -289,7 +317,7 @@ def gen_decls(rnd, ctx, nmax=4):
     decls, used = [], set()
     for _ in range(rnd.randint(0, nmax)):
         if rnd.random() < 0.5:
-            n = rnd.choice(PREFIXES) + "_"
+            n = (rnd.choice(KW_PREFIXES) if rnd.random() < 0.12 else rnd.choice(PREFIXES)) + "_"
             ctx.count("decl:wildcard-len%d" % (len(n) - 1))
         else:
             n = rnd.choice(EXPLICIT)
@@ -347,6 +375,10 @@ def fixed_hierarchies():
         [cl([["a_", I]], [1]), cl([["b_", S]], [2]), cl([], [3, 4])],
         [cl([["a_", I]], [1]), cl([["b_", S]], [2]), cl([], [4, 3])],
         [cl([], [0]), cl([], [1, 3])], [cl([], [0]), cl([], [3, 2])], [cl([], [1]), cl([], [2]), cl([], [3, 4])],
+        # wildcards whose stem is a Python keyword, own and inherited, on the three roots (C13-w1)
+        [cl([["is_", I], ["in_", S], ["from_", RO]], [0])], [cl([["is_", I], ["as_", E]], [1])], [cl([["if_", A5], ["or_", I]], [2])],
+        [cl([["is_", I], ["from_", S]], [1]), cl([["in_", D], ["isa_", S]], [3])],
+        [cl([["is_", I]], [0]), cl([["is_", S], ["or_", ["Constant", 3]]], [2]), cl([], [3, 4])],
         # every policy kind as explicit trait and as wildcard
         [cl([["a", PY], ["b", A5], ["ab", D], ["ba", RO], ["aa", ["Constant", 3]], ["bb", E], ["_a", I], ["_b", S]], [0])],
         [cl([["a_", PY], ["b_", A5], ["ab_", D], ["ba_", RO], ["aa_", ["Constant", 3]], ["bb_", E], ["_a_", I],
@@ -386,10 +418,12 @@ def focus_names(h, rnd):
             if n.endswith("_"):
                 p = n[:-1]
                 pool.update([p + "a", p + "b", p + "ab", p] if p else ["a", "b"])
+                if p in KW_PREFIXES:
+                    pool.update([p + "_x", p + "_"])
             else:
                 pool.update([n, n + "a"])
     pool.update(["_a", "a", "__a__"])
-    pool = sorted(x for x in pool if x and len(x) <= 5)
+    pool = sorted(x for x in pool if x and len(x) <= 7)
     return rnd.sample(pool, min(len(pool), rnd.randint(1, 3)))
 
 
@@ -630,6 +664,21 @@ def rt_classops_corpus():
     return cs
 
 
+def kw_classops_corpus():
+    """C13-w1: keyword-stem wildcards declared in the class body and added with add_class_trait are the same thing."""
+    I, S = ["Typed", "VInt", 7], ["Typed", "VStr", 102]
+    cs = []
+    for root in (0, 1, 2):
+        cs.append({"classes": [{"decls": [["is_", I]], "bases": [root]}, {"decls": [["from_", S]], "bases": [3]}],
+                   "objs": [3, 4], "cls": 3, "kind": "keyword-classops-corpus",
+                   "ops": [["Set", "is_ready", 101, "#0"], ["Set", "is_ready", 5, "#0"], ["Get", "is_ok", "#1"],
+                           ["AddClass", "in_", I, 3], ["Set", "in_use", 101, "#0"], ["Get", "in_use", "#1"],
+                           ["AddClass", "is_", S, 3], ["AddClass", "from_", I, 3], ["Set", "from_a", 5, "#1"],
+                           ["Set", "from_b", 5, "#0"], ["Get", "from_b", "#0"], ["AddClass", "as_", ["ReadOnly"], 4],
+                           ["Set", "as_x", 1, "#1"], ["Set", "as_x", 2, "#1"], ["Set", "as_x", 1, "#0"]]})
+    return cs
+
+
 def items_classops_corpus():
     """C13-v3: names a class owns without declaring them in __base_traits__ — the <name>_items event trait of a
     List declared in the class body — are definitions too: add_class_trait of such a name on the class raises,
@@ -857,6 +906,46 @@ def listen_history(h, rnd, ctx, maxlen):
     return dict(h, ops=ops, listen=True, kind="listen")
 
 
+def clone_history(h, rnd, ctx, maxlen):
+    """Operations on an instance a, copies of it (copy.copy / pickle: __getstate__ + __setstate__ on a new object),
+    operations on the latest copy b (flag "B").  Plain traits only."""
+    names = plain_names(h, rnd)
+    ops = []
+    for _ in range(rnd.randint(4, maxlen)):
+        r = rnd.random()
+        if r < 0.2:
+            op = ["Clone", rnd.choice(["copy", "pickle"])]
+            ctx.count("clone-op:Clone")
+        else:
+            op = random_op(rnd, ctx, names)
+            if op[0] == "Add":
+                op[2] = unrt(op[2])
+            if rnd.random() < 0.35:
+                op.append("B")
+        ops.append(op)
+    return dict(h, ops=ops, clone=True, kind="clone")
+
+
+def clone_corpus():
+    """The demo of C13-w3: a strict object carrying an added trait with a value cannot be copied; state entries are
+    governed by the copy's own rules (wildcard validates, strict refuses)."""
+    I, S = ["Typed", "VInt", 7], ["Typed", "VStr", 102]
+    cs = []
+    for root in (0, 1, 2):
+        for how in ("copy", "pickle"):
+            cs.append({"classes": [{"decls": [["x", I]], "bases": [root]}], "cls": 3, "clone": True, "kind": "clone-corpus",
+                       "ops": [["Set", "x", 1], ["Clone", how], ["Get", "x", "B"], ["Add", "lab", S], ["Clone", how],
+                               ["Set", "lab", 101], ["Clone", how], ["Get", "lab", "B"], ["Set", "lab", 5, "B"], ["Get", "lab", "B"],
+                               ["Rem", "lab"], ["Clone", how], ["Get", "lab", "B"], ["Get", "x", "B"]]})
+            cs.append({"classes": [{"decls": [["x", I], ["n_", I], ["r", ["ReadOnly"]], ["c", ["Constant", 3]], ["e", ["Event"]]],
+                                    "bases": [root]}], "cls": 3, "clone": True, "kind": "clone-corpus",
+                       "ops": [["Clone", how], ["Get", "r", "B"], ["Set", "r", 1, "B"], ["Set", "r", 2], ["Set", "n_a", 5],
+                               ["Set", "zz", 1], ["Add", "n_b", S], ["Set", "n_b", 101], ["Clone", how], ["Get", "n_a", "B"],
+                               ["Get", "n_b", "B"], ["Get", "zz", "B"], ["Set", "r", 3, "B"], ["Add", "k", ["ReadOnly", 9]],
+                               ["Clone", how], ["Get", "k", "B"]]})
+    return cs
+
+
 def listen_corpus():
     """The demo of C13-u2: add_trait, attach, detach, then the instance trait must still govern."""
     cs = []
@@ -1005,11 +1094,11 @@ def run(ctx):
         fixed = fixed_hierarchies()
         if ctx.tier == "quick":
             hiers = fixed + [gen_hierarchy(rnd, ctx) for _ in range(12)]
-            names = rnd.sample(NAMES, 14) + DUNDERS[:1]
+            names = rnd.sample(NAMES, 14) + DUNDERS[:1] + rnd.sample(KW_NAMES, 3)
             nhist, maxlen, group, nstaged = 250, 12, 5, 150
         else:
             hiers = fixed + [gen_hierarchy(rnd, ctx) for _ in range(60)]
-            names = ALL_NAMES
+            names = ALL_NAMES + KW_NAMES
             nhist, maxlen, group, nstaged = 6000, 30, 6, 2000
             ctx.cov["exhaustive"] = True
         cases = corpus() + rt_corpus() + delegate_corpus() + probe_cases(hiers, names, group, ctx, rnd)
@@ -1034,7 +1123,8 @@ def run(ctx):
         ctx.sample(c)
     # batches of 7 shards: a coqc on a 1000-case shard needs up to 1.8 GB, and the machine is shared
     BATCH = 7000
-    main_cases = [] if (ctx.replay and ("listener" in cases[0] or "objs" in cases[0] or "listen" in cases[0])) else cases
+    main_cases = [] if (ctx.replay and ("listener" in cases[0] or "objs" in cases[0] or "listen" in cases[0]
+                                       or "clone" in cases[0])) else cases
     for b in range(0, len(main_cases), BATCH):
         hist.run(ctx, "c13_driver.py", main_cases[b:b + BATCH], to_term, HEADER, CASE_T, key_fn, describe, nontrivial,
                  relation="C13.Corr.corr_codes (Model.step = HasTraits attribute access on every step)"
@@ -1058,7 +1148,7 @@ def run(ctx):
         if ctx.replay:
             tcases = cases
         else:
-            tcases = classops_corpus() + rt_classops_corpus() + items_classops_corpus() + [classops_history(rnd, ctx, maxlen)
+            tcases = classops_corpus() + rt_classops_corpus() + items_classops_corpus() + kw_classops_corpus() + [classops_history(rnd, ctx, maxlen)
                                           for _ in range(200 if ctx.tier == "quick" else 3000)]
             for c in tcases:
                 ctx.count("case:" + c["kind"])
@@ -1080,4 +1170,17 @@ def run(ctx):
                  relation="C13.CorrN.corr_codes (Model.step_n = attribute access with on_trait_change listeners attached "
                           "and detached)",
                  tag="listen")
+    # copies of the object: copy.copy / pickle round trip (C13/CorrC.v)
+    if not ctx.replay or "clone" in cases[0]:
+        if ctx.replay:
+            ccases = cases
+        else:
+            ccases = clone_corpus() + [clone_history(rnd.choice(pool), rnd, ctx, maxlen)
+                                       for _ in range(200 if ctx.tier == "quick" else 3000)]
+            for c in ccases:
+                ctx.count("case:" + c["kind"])
+                ctx.count("probes(ops)", len(c["ops"]))
+        hist.run(ctx, "c13_driver.py", ccases, to_term_c, HEADER_C, CASE_T_C, key_fn, describe, nontrivial,
+                 relation="C13.CorrC.corr_codes (Model.clone = copy.copy / pickle round trip, two instances)",
+                 tag="clone")
     proof_gate(ctx, ok, log, PROPS)
